@@ -134,10 +134,16 @@ def compare_ir(what, ir_in, ir_out, shape_in, shape, tol, psi_seed, dist_only=Fa
         psi = L.basis_vector(0, D_in) if which == "zero" else H.generic_state(psi_seed, D_in)
         psi_full = np.kron(psi, L.basis_vector(0, n_extra)) if n_extra > 1 else psi
         try:
-            a = IR.instrument(ir_out, shape, psi0=psi_full, keep=keep, forget=forget)
             b = IR.instrument(ir_in, shape_in, psi0=psi, forget=forget)
         except OverflowError:
             raise Reject("too many measurement branches for the reference")
+        try:
+            a = IR.instrument(ir_out, shape, psi0=psi_full, keep=keep, forget=forget)
+        except OverflowError:
+            raise Reject("too many measurement branches for the reference")
+        except (KeyError, IndexError) as e:
+            # the input evaluated fine, so this is the output reading a measurement record that does not exist (yet)
+            raise Violation(f"{what}: the output reads measurement key {e} before (or without) it being measured")
         msg = IR.compare_instruments(a, b, tol, states=not dist_only)
         if msg:
             raise Violation(f"{what}: from the {which} input state: {msg}")
@@ -247,7 +253,7 @@ def oracle_general(r):
 
 MP_CFG = {
     "defer_measurements": G6.Cfg(meas=0.5, cc=1.0, chan=0.05, sub=0.15, max_w=3, max_ops=6, repkeys=True, sub_tags=(0, 0, 2, 3, 4),
-                                 meas_arity=(1, 1, 1, 2)),
+                                 meas_arity=(1, 1, 2, 2)),
     "dephase_measurements": G6.Cfg(meas=0.5, cc=0.04, chan=0.1, sub=0.2, max_w=3, max_ops=7, repkeys=True),
     "drop_terminal_measurements": G6.Cfg(meas=0.5, cc=0.0, chan=0.05, sub=0.15, max_w=4, max_ops=7, terminal_only=True),
     "drop_terminal_measurements_any": G6.Cfg(meas=0.3, cc=0.0, chan=0.05, sub=0.15, max_w=3, max_ops=6),
@@ -882,8 +888,6 @@ KNOWN_FEATURES = {
     "F13_dd_modifies_ignored_ops": _f13,
     "F14_circuit_operation_unitary_zero_qubit_op": _f14,
     "F1_condition_replace_key": _f1,
-    "F5_three_qubit_diagonal_decompose": _f5,
-    "F6_stratify_zero_qubit_op": _f6,
     "F7_dd_clifford_by_unitary": _f7,
     "F12_eject_z_symbolic_iswap": _f12,
 }
@@ -953,9 +957,9 @@ def uncovered():
 
 
 SUBCHECKS = [
-    SubCheck("unitary", _case("unitary"), oracle_general, quick=6000, thorough=200000, shards_quick=8, shards_thorough=16,
+    SubCheck("unitary", _case("unitary"), oracle_general, quick=11000, thorough=300000, shards_quick=8, shards_thorough=16,
              essential={"noncommuting": 0.3}),
-    SubCheck("records", _case("records"), oracle_general, quick=4000, thorough=120000, shards_quick=8, shards_thorough=16,
+    SubCheck("records", _case("records"), oracle_general, quick=9000, thorough=200000, shards_quick=8, shards_thorough=16,
              essential={"has_meas": 0.5}),
     SubCheck("qubit_management", _qm_case(), oracle_qubit_management, quick=700, thorough=25000, shards_quick=2, shards_thorough=8),
     SubCheck("sweeps", _sw_case(), oracle_sweeps, quick=1200, thorough=40000, shards_quick=2, shards_thorough=8),
